@@ -158,7 +158,7 @@ func c15() {
 		marker := filepath.Join(dir, "marker")
 		res, err := runSandbox(dir, f.pre, sandbox, f.args(pp, cp), marker)
 		if err != nil || res.timedOut {
-			run.Inconclusive(fmt.Sprintf("sandbox run failed (%s): %v", f.kind, err))
+			run.SoftInconclusive(fmt.Sprintf("sandbox run failed (%s): %v", f.kind, err))
 			return
 		}
 		run.Count("fault_runs", 1)
@@ -275,7 +275,7 @@ func c15() {
 		res, err := runSandbox(dir, nil, sandbox, args, marker)
 		desc := fmt.Sprintf("valid case %d: style=%d groups=%d program=%d instructions no-new-privs=%v args-variant=%d", i, style, len(spec.Groups), len(comp.Raw), nnp, i%4)
 		if err != nil || res.timedOut {
-			run.Inconclusive("sandbox run failed: " + desc)
+			run.SoftInconclusive("sandbox run failed: " + desc)
 			return
 		}
 		replay := map[string]any{"check": "C15", "desc": desc, "policy": spec, "yaml_head": yamlText[:min(600, len(yamlText))], "args": args, "exit": res.exit, "stderr": tail(res.stderr, 500)}
